@@ -1,176 +1,20 @@
 /-
   Driver.lean — line protocol between the Python harness and the executable Lean model.
   Run with   lake env lean --run Driver.lean < requests > responses
-  One JSON request per line, one JSON response per line.  Numbers that are rationals travel as
-  strings "n/d" (or "n"); a float64 of the implementation is sent as the exact rational it denotes.
+  One JSON request per line `{"op": name, ...}`, one JSON response per line.
+  Operations live in ForsysModel/Driver/*.lean; each module exports `ops : List Op`.
 -/
-import Lean.Data.Json
-import ForsysModel.Model
-open Lean Forsys
+import ForsysModel.Driver.Core
+open Lean Forsys Forsys.Driver
 
-abbrev E := Except String
-
-def parseRat (s : String) : E Rat :=
-  match s.splitOn "/" with
-  | [n] => match n.trimAscii.toString.toInt? with
-    | some k => pure (k : Rat)
-    | none => throw s!"bad rational {s}"
-  | [n, d] => match n.trimAscii.toString.toInt?, d.trimAscii.toString.toNat? with
-    | some k, some m => if m = 0 then throw s!"zero denominator {s}" else pure (mkRat k m)
-    | _, _ => throw s!"bad rational {s}"
-  | _ => throw s!"bad rational {s}"
-
-def jRat (j : Json) : E Rat :=
-  match j with
-  | .str s => parseRat s
-  | .num _ => do let k ← j.getInt?; pure (k : Rat)
-  | _ => throw "rational expected"
-
-def jInt (j : Json) : E Int := j.getInt?
-def jNat (j : Json) : E Nat := j.getNat?
-def jBool (j : Json) : E Bool :=
-  match j with
-  | .bool b => pure b
-  | .num _ => do let k ← j.getInt?; pure (k != 0)
-  | _ => throw "bool expected"
-
-def jList {α : Type} (f : Json → E α) (j : Json) : E (List α) := do
-  let a ← j.getArr?
-  a.toList.mapM f
-
-def jIdx (j : Json) (i : Nat) : E Json := do
-  let a ← j.getArr?
-  match a[i]? with
-  | some x => pure x
-  | none => throw s!"index {i} out of range"
-
-def jPt (j : Json) : E Pt := do
-  let x ← jRat (← jIdx j 0); let y ← jRat (← jIdx j 1); pure ⟨x, y⟩
-
-def jVec (j : Json) : E Vec := do
-  let x ← jRat (← jIdx j 0); let y ← jRat (← jIdx j 1); pure ⟨x, y⟩
-
-def field (j : Json) (k : String) : E Json := j.getObjVal? k
-
-def jMesh (j : Json) : E Mesh := do
-  let vs ← jList (fun r => do
-      let key ← jInt (← jIdx r 0); let id ← jInt (← jIdx r 1)
-      let x ← jRat (← jIdx r 2); let y ← jRat (← jIdx r 3)
-      let oe ← jList jInt (← jIdx r 4); let oc ← jList jInt (← jIdx r 5)
-      pure (key, ({ id := id, x := x, y := y, ownEdges := oe, ownCells := oc } : Vertex))) (← field j "v")
-  let es ← jList (fun r => do
-      let key ← jInt (← jIdx r 0); let id ← jInt (← jIdx r 1)
-      let a ← jInt (← jIdx r 2); let b ← jInt (← jIdx r 3); let same ← jBool (← jIdx r 4)
-      pure (key, ({ id := id, v1 := a, v2 := b, same := same } : SEdge))) (← field j "e")
-  let cs ← jList (fun r => do
-      let key ← jInt (← jIdx r 0); let id ← jInt (← jIdx r 1)
-      let vs ← jList jInt (← jIdx r 2); let same ← jBool (← jIdx r 3)
-      pure (key, ({ id := id, verts := vs, same := same } : Cell))) (← field j "c")
-  pure { vertices := vs, edges := es, cells := cs }
-
-/-! output helpers -/
-def rJ (q : Rat) : Json := .str (if q.den = 1 then toString q.num else s!"{q.num}/{q.den}")
-def iJ (i : Int) : Json := .num (JsonNumber.fromInt i)
-def nJ (n : Nat) : Json := .num (JsonNumber.fromNat n)
-def lJ {α : Type} (f : α → Json) (l : List α) : Json := .arr (l.map f).toArray
-def oJ {α : Type} (f : α → Json) : Option α → Json
-  | some a => f a
-  | none => .null
-def ptJ (p : Pt) : Json := lJ rJ [p.x, p.y]
-def vecJ (v : Vec) : Json := lJ rJ [v.x, v.y]
-
-def meshJ (m : Mesh) : Json :=
-  Json.mkObj [
-    ("v", lJ (fun (p : Id × Vertex) => Json.arr #[iJ p.1, iJ p.2.id, rJ p.2.x, rJ p.2.y, lJ iJ p.2.ownEdges, lJ iJ p.2.ownCells]) m.vertices),
-    ("e", lJ (fun (p : Id × SEdge) => Json.arr #[iJ p.1, iJ p.2.id, iJ p.2.v1, iJ p.2.v2, .bool p.2.same]) m.edges),
-    ("c", lJ (fun (p : Id × Cell) => Json.arr #[iJ p.1, iJ p.2.id, lJ iJ p.2.verts, .bool p.2.same]) m.cells)]
-
-/-! operations -/
-
-def opCellGeom (j : Json) : E Json := do
-  let ps ← jList jPt (← field j "pts")
-  let n := ps.length
-  pure <| Json.mkObj [
-    ("area", rJ (area ps)), ("sign", iJ (areaSign ps)),
-    ("next", lJ nJ ((List.range n).map (nextIdx ps))),
-    ("prev", lJ nJ ((List.range n).map (prevIdx ps))),
-    ("perimSq", lJ rJ (perimeterSq ps)),
-    ("cm", ptJ (cm ps)),
-    ("shoelace2", rJ (shoelace2 ps))]
-
-def opConsistent (j : Json) : E Json := do
-  let m ← jMesh (← field j "mesh")
-  pure <| Json.mkObj [("ok", .bool m.Consistent), ("failing", lJ Json.str m.failing)]
-
-def opFrame (j : Json) : E Json := do
-  let m ← jMesh (← field j "mesh")
-  let earr := m.bigEdgesList
-  pure <| Json.mkObj [
-    ("earr", lJ (lJ iJ) earr),
-    ("perCell", lJ (fun (p : Id × Cell) => Json.arr #[iJ p.1, lJ (lJ iJ) (cellPaths m.isJunction p.2.verts)]) m.cells),
-    ("externalIds", lJ nJ (m.externalEdgesId earr)),
-    ("internalIdx", lJ nJ (m.internalIdx earr)),
-    ("extFlags", lJ (fun e => Json.bool (m.bigEdgeExternal e)) earr),
-    ("tensionRows", lJ nJ (m.tensionRows earr)),
-    ("beEdges", lJ (fun e => lJ (oJ iJ) (m.bigEdgeEdges e)) earr),
-    ("beOwnCells", lJ (fun e => lJ iJ (m.bigEdgeOwnCells e)) earr),
-    ("neighbors", lJ (fun (p : Id × Cell) => Json.arr #[iJ p.1, lJ iJ (m.neighbors p.2)]) m.cells),
-    ("consistent", .bool m.Consistent)]
-
-def opByCells (j : Json) : E Json := do
-  let m ← jMesh (← field j "mesh")
-  let pairs ← jList (fun r => do let a ← jInt (← jIdx r 0); let b ← jInt (← jIdx r 1); pure (a, b)) (← field j "pairs")
-  let earr := m.bigEdgesList
-  pure <| Json.mkObj [("res", lJ (fun (p : Id × Id) => lJ nJ (m.bigEdgeByCells earr p.1 p.2)) pairs)]
-
-def opGenMesh (j : Json) : E Json := do
-  let m ← jMesh (← field j "mesh")
-  let ne ← jNat (← field j "ne")
-  let rep ← jBool (← field j "replace")
-  let r := m.generateMesh ne rep
-  let err : Json := match r.error with
-    | none => .null
-    | some .keyError => .str "KeyError"
-    | some .indexError => .str "IndexError"
-  pure <| Json.mkObj [("mesh", meshJ r.mesh), ("nEdgeArray", lJ (lJ iJ) r.nEdgeArray), ("error", err),
-                      ("consistent", .bool r.mesh.Consistent), ("failing", lJ Json.str r.mesh.failing)]
-
-def opPick (j : Json) : E Json := do
-  let ne ← jNat (← field j "ne")
-  let e ← jList jInt (← field j "e")
-  pure <| Json.mkObj [("res", lJ iJ (pick ne e))]
-
-def opFMatrix (j : Json) : E Json := do
-  let m ← jMesh (← field j "mesh")
-  let centers ← jList jPt (← field j "centers")
-  let cosj ← field j "cos"
-  let cos ← (match cosj with | .null => pure none | x => do let q ← jRat x; pure (some q) : E (Option Rat))
-  let ig ← jBool (← field j "ignoreFour")
-  let out := ({ mesh := m, centers := centers, cosLimit := cos, ignoreFour := ig } : FMInput).build
-  pure <| Json.mkObj [
-    ("earr", lJ (lJ iJ) out.earr), ("deletes", lJ iJ out.deletes), ("used", lJ (lJ iJ) out.used),
-    ("rows", lJ (fun (r : Id × Bool × List (Option Vec)) =>
-        Json.arr #[iJ r.1, .bool r.2.1, lJ (oJ vecJ) r.2.2]) out.rows)]
-
-def opRealign (j : Json) : E Json := do
-  let internal ← jList (jList jInt) (← field j "internal")
-  let del ← jList jInt (← field j "deletes")
-  let x ← jList jRat (← field j "x")
-  pure <| Json.mkObj [("res", lJ rJ (realign internal del x))]
+def allOps : List Op := Forsys.Driver.Core.ops
 
 def dispatch (j : Json) : E Json := do
   let op ← (← field j "op").getStr?
-  match op with
-  | "cell_geom" => opCellGeom j
-  | "consistent" => opConsistent j
-  | "frame" => opFrame j
-  | "by_cells" => opByCells j
-  | "genmesh" => opGenMesh j
-  | "pick" => opPick j
-  | "fmatrix" => opFMatrix j
-  | "realign" => opRealign j
-  | "ping" => pure (Json.mkObj [("pong", .bool true)])
-  | _ => throw s!"unknown op {op}"
+  if op == "ping" then return Json.mkObj [("pong", .bool true)]
+  match allOps.find? (fun o => o.1 == op) with
+  | some o => o.2 j
+  | none => throw s!"unknown op {op}"
 
 partial def loop (hin hout : IO.FS.Stream) : IO Unit := do
   let line ← hin.getLine
